@@ -48,3 +48,21 @@ def c08_k5_visit_marks_before_recursing(am):
     i_chk = flat.find("sort_data.visited.contains(")
     ok = 0 <= i_chk < i_ins < i_rec and flat.count("self.visit(") == 1
     return ok, "DepsGraph::visit must check `visited`, then mark the node, and only then recurse (otherwise assets that look each other up recurse without bound): positions contains=%d insert=%d recurse=%d" % (i_chk, i_ins, i_rec), "lines %s: %s" % (rep["lines"], flat[:400])
+
+
+def c14_s1_guards_restore_on_unwind(am):
+    """record() and no_record() restore the recording cell through a drop guard bound BEFORE the closure runs, so that the
+    cell is restored on every exit path including unwinding. Unwinding itself cannot be executed by Kani (panic=abort)."""
+    msgs = []
+    detail = []
+    for anchor in ("pub(crate) fn record<F: FnOnce() -> T, T>(reloader: &HotReloader, f: F) -> (T, Dependencies) {",
+                   "pub(crate) fn no_record<F: FnOnce() -> T, T>(f: F) -> T {"):
+        txt, rep = _fn_text(am, "src/hot_reloading/records.rs", anchor)
+        flat = " ".join(" ".join(l.split("//")[0] for l in txt.split("\n")).split())
+        ig = flat.find("let _guard = CellGuard::replace(rec,")
+        ic = flat.find("f()")
+        ok = 0 <= ig < ic and ".set(" not in flat
+        detail.append("%s: guard@%d call@%d" % (anchor.split("(")[1].split("<")[0] if False else anchor[14:23], ig, ic))
+        if not ok:
+            msgs.append("`%s` must install `let _guard = CellGuard::replace(rec, ..)` before calling the closure (restoration on every exit path, also by panic)" % anchor.split("fn ")[1].split("<")[0])
+    return (not msgs), "; ".join(msgs), "; ".join(detail)
